@@ -112,6 +112,10 @@ def jobs_for(tier, rng):
                                  rng.choice([0, -2, 2]), mode))
         for s in pts[:6]:
             jobs.append((r, (0, 0), s, s, 1, 1, 1, 1, 0, 0, "exact"))
+            # coincident endpoints win over every other degenerate case (F.6.2 comes first)
+            for mode in ("zero", "neg", "half"):
+                jobs.append((r, (0, 0), s, s, rng.choice([0, 1]), rng.choice([0, 1]), 1, 1,
+                             rng.choice([0, 90, "345"]), 0, mode))
         for s in pts[:4]:
             jobs.append((r, (0, 0), s, pts[3], 0, 1, 1, 1, 0, 0, "neg"))
     return jobs
